@@ -74,6 +74,9 @@ def ev(t, env):
                 return ev(args[1], env) if o[1] is None else o[1]
         if nm in ("from", "into", "clone") and len(args) == 1:
             return ev(args[0], env)
+        if nm == "is_multiple_of" and len(args) == 2 and t[1].startswith("core::num"):
+            a, b = ev(args[0], env), ev(args[1], env)
+            return (a == 0) if b == 0 else (a % b == 0)
         if nm in ("div_ceil", "next_multiple_of", "max", "min", "saturating_sub", "wrapping_sub") and len(args) == 2 and (t[1].startswith("core::num") or t[1].startswith("core::cmp")):
             a, b = ev(args[0], env), ev(args[1], env)
             if not isinstance(a, int) or not isinstance(b, int):
@@ -105,6 +108,11 @@ def ev_atom(kind, args, env):
         if not isinstance(a, int) or not isinstance(b, int):
             raise Unknown("lt on non-int")
         return a < b
+    if kind == "bool":
+        v = ev(args[0], env)
+        if isinstance(v, bool):
+            return v
+        raise Unknown("bool on non-bool")
     if kind == "is_some":
         o = ev(args[0], env)
         if isinstance(o, tuple) and o[0] == "opt":
